@@ -40,6 +40,9 @@ Proof. intros r m E. unfold setstate in E. destruct (has_class (m_state (p_m r))
 Lemma keep_isSome : forall o, keep (isSome o) o = o.
 Proof. destruct o; reflexivity. Qed.
 
+Lemma persisted_fields_b_true : persisted_fields_b = true.
+Proof. vm_compute. reflexivity. Qed.
+
 Lemma repair_init_ok_b_true : repair_init_ok_b = true.
 Proof. vm_compute. reflexivity. Qed.
 
@@ -70,13 +73,9 @@ Lemma repair_table_thm : forall m,
   m_place (repair m) = m_place m /\ m_registered (repair m) = m_registered m /\
   (in_progress (m_state m) = false -> m_start (repair m) = m_start m /\ m_complete (repair m) = m_complete m).
 Proof.
-  intros m. unfold repair, repaired_state. cbn [m_state upd_rq].
-  destruct (m_state m) eqn:S; try solve [cbn; repeat first [split | intro]; first [reflexivity | assumption]].
-  - (* INITIALIZING *)
-    unfold step_seq. cbn [t_state t_dir to_c03 c_op queue_call m_state m_dir upd_rq].
-    rewrite S, init_queue_body. cbn. rewrite !keep_isSome. repeat split; try reflexivity; discriminate.
-  - cbn. repeat split; try reflexivity; discriminate.
-  - cbn. repeat split; try reflexivity; discriminate.
+  intros [u p d s loc rq pl f ab fs by_ qa ua stt ct off reg]. unfold repaired_state.
+  destruct s, d, loc, stt, ct; cbv -[opt_N_eqb]; try destruct (opt_N_eqb fs by_);
+    repeat split; intros; try reflexivity; try discriminate.
 Qed.
 
 Lemma repair_not_in_progress : forall m, in_progress (m_state (repair m)) = false.
@@ -238,6 +237,21 @@ Section CacheProofs.
       + intros I. apply in_map_iff in I. destruct I as [t [E It]]. apply in_map_iff. exists (k, getstate t). split; [reflexivity|].
         apply in_write; try assumption. exists t. auto.
   Qed.
+
+  Lemma nodup_write : forall d ts, NoDup (map fst d) -> NoDup (map fst (write d ts)).
+  Proof. intros d ts N. unfold C17.Model.write. apply nodup_map_fst_filter. apply nodup_puts. exact N. Qed.
+
+  Definition history (d0 : db K) (hist : list (list mt)) : db K := fold_left (fun d ts => write d ts) hist d0.
+
+  Lemma nodup_history : forall hist d0, NoDup (map fst d0) -> NoDup (map fst (history d0 hist)).
+  Proof. induction hist as [|ts hist IH]; intros d0 N; cbn; [exact N|]. apply IH. apply nodup_write. exact N. Qed.
+
+  (* whatever was written before (any lists, any field values, any number of times): after the last write the
+     database holds the CURRENT pickles of the listed transfers and nothing else *)
+  Lemma history_thm : forall d0 hist ts, NoDup (map fst d0) ->
+    NoDup (map ident_of ts) -> hash_injective_on K H enc ts ->
+    Permutation (map snd (write (history d0 hist) ts)) (map getstate ts).
+  Proof. intros d0 hist ts N0 N KI. apply roundtrip_thm; try assumption. apply nodup_history. exact N0. Qed.
 
   (* what a new client unpickles: the listed transfers, each once, with fresh runtime fields *)
   Lemma roundtrip_read_thm : forall d ts, NoDup (map fst d) ->
